@@ -60,6 +60,7 @@ func (e *Edge) Close() error {
 		return nil
 	}
 	e.closed = true
+	verifEdgeClosed(e)
 	vars.DeleteStatistic(e.statsKey)
 	e.diag.ClosingEdge(e.Collected(), e.Emitted())
 	return e.StatsEdge.Close()
